@@ -371,6 +371,8 @@ func parseWorkloads(raws []plugintypes.WorkloadResource) ([]*cpumemtypes.Workloa
 
 // ---- guarded calls ---------------------------------------------------------------------------
 
+const guardPatience = 20 * time.Second
+
 type guardResult struct {
 	panicked bool
 	panicVal string
